@@ -98,6 +98,8 @@ def match_re(short_data_type, val):
         return False
     if m.group(0) != val:  # matched substring != original, bad
         return False  # nothing matched
+    if not any(c in '0123456789' for c in val):
+        return False  # a number has at least one digit
     return True
 
 
